@@ -13,7 +13,8 @@ FIX_COMMITS = ['c5b9684 (C05 DataReader EOD==0)', 'c3bb002 (C17 ESC prefix on 1x
                '2cbb9ad (C14 end-of-data reply outside data timeout)', '5450342 + 93f16c4 (C14 unbounded TLS close, relay and edge)',
                '656a561 (C14 AUTH exchange outside the command timeout)', 'c8d76aa (C14 HttpRelay drain of the previous response outside the timeout)',
                '891cd1e + b47e514 (C14 unbounded TLS handshake, server and tls_immediately relay client)',
-               '02ec277 (C10 code-only reply line rejected)', 'e83b33d (C08 authentication survives STARTTLS)']
+               '02ec277 (C10 code-only reply line rejected)', 'e83b33d (C08 authentication survives STARTTLS)',
+               'ca9b539 (C13 configured bounce queue ignored)']
 
 ENGINES = [
     {'name': 'runner', 'path': 'vf/runner.py', 'serves_properties': [],
